@@ -210,8 +210,9 @@ Proof.
     intros e. destruct r1; simpl; try discriminate. intro E. injection E as ->. eapply A. reflexivity.
   - injection HD as <- <- _. split; [discriminate | exact Hh].
   - unfold data_of in HD. rewrite Ho in HD. destruct (r_data (o_rec ob)) as [d|] eqn:Ed; [|congruence].
-    injection HD as <- <- _. split; [discriminate|]. destruct (kv_get d k); [|exact Hh].
-    rewrite (hupd_spec _ _ _ _ Ho). eexists. split; [apply hget_hput_same; eapply hget_Some_lt; exact Ho | discriminate].
+    destruct (kv_get d k) as [v|]; [|injection HD as <- <- _; split; [discriminate | exact Hh]].
+    destruct (save_direct _ o) as [s1 r1] eqn:ES. injection HD as <- <- _.
+    destruct (set_data_handle _ _ _ _ _ _ Ho ES) as [A B]. split; [discriminate | exact B].
   - destruct (login s o u exclusive) as [[s1 r1] c1] eqn:EL. injection HD as <- <- _.
     destruct (stable_login _ _ _ _ _ _ _ EL) as [A B]. split; [|eapply handle_ok_stable; eassumption].
     intros e. destruct r1; simpl; try discriminate. intro E. injection E as ->. eapply B; [congruence | reflexivity].
